@@ -233,6 +233,13 @@ example : (rows .text (filterSnap (some 1) (some 1) false (snapshot C01.exN))).l
     (rows .json (filterSnap none none true (snapshot C01.exN))).length = 3 ∧
     (rows .json (filterSnap (some 9) none true (snapshot C01.exN))).length = 0 := by decide
 
+/-- `render_complete` applied: topic 1 of `C01.exN` passes the filter `topic=1`, so its row is in the text rendering -/
+example : (snapshot C01.exN).any (fun t => t.tid == 1) = true ∧
+    ∀ t ∈ snapshot C01.exN, t.tid = 1 →
+      project .text false (topicRow .json t) ∈ rows .text (filterSnap (some 1) none false (snapshot C01.exN)) :=
+  ⟨by decide, fun t ht h1 =>
+    (render_complete C01.exN .text (some 1) none false t ht (Or.inr (by rw [h1])) (fun c hc => by cases hc)).1⟩
+
 end Nsqd
 
 end Nsq.Props.C13
